@@ -75,6 +75,7 @@ func init() {
 		Explain: "Decides C04 structurally: in each of the four handlers whose result feeds the rebroadcast decision, every path returning a possibly-true result passes the handler's 'mark' (status-time store / strictly-newer intent upsert / append to the slot's event list / append of the query id), the message then takes the already-seen path (C02.R2, and the slot-time/duplicate tests here), the retention window is exactly one buffer length so two retained times never share a slot, NotifyMsg enqueues only when a handler returned true, and MergeRemoteState never uses a handler result and reaches QueueBroadcast only through the refutation join. Hence a retained message is rebroadcast at most once.",
 		Run: runC04,
 		Mutants: []Mutant{
+			{Name: "upsert-tie-replaces", File: "serf/serf.go", Func: "func upsertIntent(", Old: "!ok || ltime > intent.LTime", New: "!ok || ltime > intent.LTime || (ltime == intent.LTime && itype != intent.Type)", Expect: "R1|upsertIntent:strictly-newer"},
 			{Name: "leave-mark-only-on-transition", File: "serf/serf.go", Func: "func (s *Serf) handleNodeLeaveIntent(", Old: "\tmember.statusLTime = leaveMsg.LTime\n", New: "\tif member.Status == StatusAlive || member.Status == StatusFailed {\n\t\tmember.statusLTime = leaveMsg.LTime\n\t}\n", Expect: "R1"},
 			{Name: "userevent-dup-returns-true", File: "serf/serf.go", Func: "func (s *Serf) handleUserEvent(", Old: "\t\t\tif previous.Equals(&userEvent) {\n\t\t\t\treturn false", New: "\t\t\tif previous.Equals(&userEvent) {\n\t\t\t\treturn true", Expect: "R1"},
 			{Name: "merge-enqueues", File: "serf/delegate.go", Func: "func (d *delegate) MergeRemoteState(", Old: "\t\td.serf.handleNodeLeaveIntent(&leave)\n", New: "\t\tif d.serf.handleNodeLeaveIntent(&leave) {\n\t\t\td.serf.broadcast(messageLeaveType, &leave, nil)\n\t\t}\n", Expect: "R3"},
@@ -191,32 +192,7 @@ func runC02(c *an.Ctx) {
 	}
 
 	// R5 intent buffer
-	if up := sf(c, "R5", "upsertIntent"); up != nil {
-		absent := an.Cmp{L: "$0[$1]#1", Op: "==", R: "c:false"}
-		newer := an.Cmp{L: "$3", Op: ">", R: "$0[$1]#0.LTime"}
-		edges := append(an.EdgesImplying(up, absent), an.EdgesImplying(up, newer)...)
-		var targets []ssa.Instruction
-		for _, in := range an.FindInstrs(up, func(in ssa.Instruction) bool { _, ok := in.(*ssa.MapUpdate); return ok }) {
-			targets = append(targets, in)
-		}
-		for _, r := range an.Returns(up) {
-			if v := an.ResultValues(r); len(v) == 1 && !an.IsConstBool(v[0], false) {
-				targets = append(targets, r)
-			}
-		}
-		c.Floor("R5", "guarded effects in upsertIntent", len(targets), 2)
-		for _, t := range targets {
-			c.Add(an.Guarded(up, t, edges), "R5", "upsertIntent:strictly-newer:"+kindOf(t), t, kindOf(t)+" only when the node has no buffered intent or ltime > buffered LTime (strict)", "edge dominance over {absent, strictly newer}")
-		}
-		for _, in := range an.FindInstrs(up, func(in ssa.Instruction) bool { _, ok := in.(*ssa.MapUpdate); return ok }) {
-			mu := in.(*ssa.MapUpdate)
-			okKey := an.Path(mu.Map) == "$0" && an.Path(mu.Key) == "$1"
-			c.Add(okKey, "R5", "upsertIntent:slot", in, "the intent is stored under the node's own key", "access path")
-		}
-		for _, st := range an.StoresTo(up, ".LTime") {
-			c.Add(an.Path(st.Val) == "$3", "R5", "upsertIntent:stored-ltime", st, "the buffered intent carries the supplied Lamport time", "access path")
-		}
-	}
+	upsertRule(c, "R5")
 	if hj := sm(c, "R5", "Serf", "handleNodeJoin"); hj != nil {
 		jt, lt := cv(c, serf, "messageJoinType"), cv(c, serf, "messageLeaveType")
 		ri := func(t string) string { return "recentIntent($0.recentIntents,$1.Name," + t + ")" }
@@ -648,6 +624,7 @@ func runC04(c *an.Ctx) {
 	}
 	mark(ue, isAppendTo("Events", "$1.Name"), "appending the event to the slot's Events")
 	mark(q, isAppendTo("QueryIDs", "$1.ID"), "appending the query id to the slot's QueryIDs")
+	upsertRule(c, "R1")
 	if up := sf(c, "R1", "upsertIntent"); up != nil {
 		for _, r := range an.Returns(up) {
 			if v := an.ResultValues(r); len(v) == 1 && !an.IsConstBool(v[0], false) {
@@ -675,7 +652,7 @@ func runC04(c *an.Ctx) {
 			var guard *ssa.Phi
 			for ed, facts := range an.EdgeFacts(nm) {
 				for _, f := range facts {
-					if strings.HasPrefix(f.L, "phi:") && f.Op == "==" && f.R == "c:true" && an.Guarded(nm, e, []an.Edge{ed}) {
+					if strings.HasPrefix(f.L, "phi@") && f.Op == "==" && f.R == "c:true" && an.Guarded(nm, e, []an.Edge{ed}) {
 						if i, ok := ed.From.Instrs[len(ed.From.Instrs)-1].(*ssa.If); ok {
 							guard, _ = i.Cond.(*ssa.Phi)
 						}
@@ -840,4 +817,35 @@ func dupRule(c *an.Ctx, h *ssa.Function, buf, list string) {
 	_ = sameT
 	_ = nonNil
 	_ = list
+}
+
+// upsertRule decides the intent buffer's dedupe discipline (shared by C02 and C04: the handlers
+// return upsertIntent's result as the re-broadcast decision for members they do not know).
+func upsertRule(c *an.Ctx, rule string) {
+	if up := sf(c, rule, "upsertIntent"); up != nil {
+		absent := an.Cmp{L: "$0[$1]#1", Op: "==", R: "c:false"}
+		newer := an.Cmp{L: "$3", Op: ">", R: "$0[$1]#0.LTime"}
+		edges := append(an.EdgesImplying(up, absent), an.EdgesImplying(up, newer)...)
+		var targets []ssa.Instruction
+		for _, in := range an.FindInstrs(up, func(in ssa.Instruction) bool { _, ok := in.(*ssa.MapUpdate); return ok }) {
+			targets = append(targets, in)
+		}
+		for _, r := range an.Returns(up) {
+			if v := an.ResultValues(r); len(v) == 1 && !an.IsConstBool(v[0], false) {
+				targets = append(targets, r)
+			}
+		}
+		c.Floor(rule, "guarded effects in upsertIntent", len(targets), 2)
+		for _, t := range targets {
+			c.Add(an.Guarded(up, t, edges), rule, "upsertIntent:strictly-newer:"+kindOf(t), t, kindOf(t)+" only when the node has no buffered intent or ltime > buffered LTime (strict)", "edge dominance over {absent, strictly newer}")
+		}
+		for _, in := range an.FindInstrs(up, func(in ssa.Instruction) bool { _, ok := in.(*ssa.MapUpdate); return ok }) {
+			mu := in.(*ssa.MapUpdate)
+			okKey := an.Path(mu.Map) == "$0" && an.Path(mu.Key) == "$1"
+			c.Add(okKey, rule, "upsertIntent:slot", in, "the intent is stored under the node's own key", "access path")
+		}
+		for _, st := range an.StoresTo(up, ".LTime") {
+			c.Add(an.Path(st.Val) == "$3", rule, "upsertIntent:stored-ltime", st, "the buffered intent carries the supplied Lamport time", "access path")
+		}
+	}
 }
